@@ -208,10 +208,13 @@ func syncScenario(w *World, p *Plan, rec *Record) {
 				feed("valid-child", v)
 			}
 		case 2:
-			for _, sv := range ss.Live {
-				v := sv.V
+			lv := map[Hash]*accountant.Vertex{}
+			for h, sv := range ss.Live {
+				lv[h] = &sv.V
+			}
+			if hs := sortedHashes(lv); len(hs) > 0 {
+				v := *lv[hs[r.Intn(len(hs))]]
 				feed("duplicate", &v)
-				break
 			}
 		case 3:
 			if v, e := w.craft(src, &Step{Kind: "valid", From: 2 % len(w.Wallets), To: 1, Cur: 1 << 40}, w.adversary()); e == nil {
